@@ -17,9 +17,18 @@
    (rotate left by k mod 64, i.e. right for negative k) written as in the library: s = uint(k) & 63;
    x<<s | x>>(64-s).
 
+   Methods: the receiver's fields that the body mentions are parameters, those it assigns are results.  A field that
+   is a slice of integers is a [list Z]: [go_len], [go_nth] (index read), [go_upd] (index write); an index outside
+   [0, len) panics in Go, so every indexed statement is preceded by the test and the function is partial; the
+   translator admits nothing that could make two slices share an array (no append, reslicing, copies), so the list
+   reading is exact.  [for i := range s] counts [i] from 0 to the length evaluated once at entry; its fuel is that
+   length + 1.  [break] sets an exit flag that is the first component of the loop state and part of the loop test.
+   In a partial function loops are [whileP]: the body may have no value.
+
    Loops are [while fuel cond body s]: [None] when the fuel runs out with the condition still true; the theorems
    about translated functions show a fuel that suffices and so exclude that case. *)
-From Coq Require Import ZArith Bool Lia.
+From Coq Require Import ZArith Bool Lia List.
+Import ListNotations.
 Open Scope Z_scope.
 
 Inductive ity : Set := I (bits : Z) | U (bits : Z).
@@ -45,10 +54,27 @@ Definition go_cast (t : ity) (a : Z) : Z := go_wrap t a.
 Definition go_rotl64 (x k : Z) : Z :=
   let s := k mod 64 in Z.lor (go_shl (U 64) x s) (go_shr (U 64) x (64 - s)).
 
+Definition go_len (l : list Z) : Z := Z.of_nat (length l).
+Definition go_nth (l : list Z) (j : Z) : Z := nth (Z.to_nat j) l 0.
+Fixpoint upd_nat (l : list Z) (n : nat) (v : Z) : list Z :=
+  match l, n with
+  | [], _ => []
+  | _ :: t, O => v :: t
+  | x :: t, Datatypes.S n' => x :: upd_nat t n' v
+  end.
+Definition go_upd (l : list Z) (j v : Z) : list Z := upd_nat l (Z.to_nat j) v.
+
 Fixpoint while {S : Type} (fuel : nat) (c : S -> bool) (b : S -> S) (s : S) : option S :=
   match fuel with
   | O => None
   | Datatypes.S f => if c s then while f c b (b s) else Some s
+  end.
+
+(* a loop whose body can panic *)
+Fixpoint whileP {S : Type} (fuel : nat) (c : S -> bool) (b : S -> option S) (s : S) : option S :=
+  match fuel with
+  | O => None
+  | Datatypes.S f => if c s then match b s with None => None | Some s' => whileP f c b s' end else Some s
   end.
 
 (* ---- basic facts ---- *)
@@ -153,3 +179,54 @@ Proof.
   - destruct (Hb s Hs E) as [Hi Hlt]. apply IH; [exact Hi | lia].
   - exists s. auto.
 Qed.
+
+(* ---- partial loops and lists ---- *)
+
+Lemma whileP_unroll {S} f (c : S -> bool) b s :
+  whileP (Datatypes.S f) c b s = if c s then match b s with None => None | Some s' => whileP f c b s' end else Some s.
+Proof. reflexivity. Qed.
+
+Lemma whileP_fuel_mono {S} (c : S -> bool) b f : forall s r g, whileP f c b s = Some r -> (f <= g)%nat -> whileP g c b s = Some r.
+Proof.
+  induction f as [|f IH]; intros s r g H Hg; [discriminate|].
+  destruct g as [|g]; [lia|]. cbn in *. destruct (c s); [|exact H].
+  destruct (b s) as [s'|]; [apply IH; [exact H|lia] | discriminate].
+Qed.
+
+(* one-step simulation as [while_simulates], for a body that may panic: [step] also shows that it does not *)
+Lemma whileP_simulates {A S T} (R : A -> S -> Prop) (m : A -> nat) (model : nat -> A -> T) (out : S -> T)
+      (c : S -> bool) (b : S -> option S) :
+  (forall f a s, R a s -> c s = false -> model f a = out s) ->
+  (forall f a s, R a s -> c s = true ->
+     exists s' a', b s = Some s' /\ R a' s' /\ (m a' < m a)%nat /\ model (Datatypes.S f) a = model f a') ->
+  forall f a s, R a s -> (m a <= f)%nat ->
+  exists r, whileP (Datatypes.S f) c b s = Some r /\ model f a = out r /\ c r = false.
+Proof.
+  intros Hstop Hstep f; induction f as [|f IH]; intros a s HR Hm.
+  - cbn. destruct (c s) eqn:E.
+    + destruct (Hstep 0%nat a s HR E) as (s' & a' & _ & _ & Hlt & _). lia.
+    + exists s. repeat split; [apply Hstop; assumption | exact E].
+  - rewrite whileP_unroll. destruct (c s) eqn:E.
+    + destruct (Hstep f a s HR E) as (s' & a' & Hb & HR' & Hlt & Hmod). rewrite Hb.
+      destruct (IH a' s' HR') as (r & Hw & Hr & Hc); [lia|].
+      exists r. repeat split; [exact Hw | rewrite Hmod; exact Hr | exact Hc].
+    + exists s. repeat split; [apply Hstop; assumption | exact E].
+Qed.
+
+Lemma upd_nat_length l : forall n v, length (upd_nat l n v) = length l.
+Proof. induction l as [|x t IH]; intros [|n] v; cbn; try reflexivity. rewrite IH. reflexivity. Qed.
+
+Lemma go_len_upd l j v : go_len (go_upd l j v) = go_len l.
+Proof. unfold go_len, go_upd. rewrite upd_nat_length. reflexivity. Qed.
+
+Lemma upd_nat_mid a : forall x b v, upd_nat (a ++ x :: b) (length a) v = a ++ v :: b.
+Proof. induction a as [|y a IH]; intros x b v; cbn; [reflexivity | rewrite IH; reflexivity]. Qed.
+
+Lemma go_upd_mid a x b v : go_upd (a ++ x :: b) (Z.of_nat (length a)) v = a ++ v :: b.
+Proof. unfold go_upd. rewrite Nat2Z.id. apply upd_nat_mid. Qed.
+
+Lemma go_nth_mid a x b : go_nth (a ++ x :: b) (Z.of_nat (length a)) = x.
+Proof. unfold go_nth. rewrite Nat2Z.id. apply nth_middle. Qed.
+
+Lemma go_len_app a b : go_len (a ++ b) = go_len a + go_len b.
+Proof. unfold go_len. rewrite app_length. lia. Qed.
